@@ -1,15 +1,16 @@
 #!/bin/bash
 # usage: lab_seed.sh <seed-dir> <tier> <prop>...   (runs in the lab copy; see lab_sync.sh)
+LAB=${LAB:-/tmp/lab}
 SD=$(readlink -f "$1"); shift; TIER=$1; shift
-cd /tmp/lab/repo || exit 2
+cd $LAB/repo || exit 2
 git checkout -q -- . ; git clean -fdq
 if ! git apply --3way "$SD/patch.diff" >/dev/null 2>&1; then git checkout -q -- . ; git reset -q; echo "$(basename $SD): PATCH DOES NOT APPLY"; exit 3; fi
 git reset -q
-cd /tmp/lab/verif
-export VERIF_REPO=/tmp/lab/repo
+cd $LAB/verif
+export VERIF_REPO=$LAB/repo
 for P in "$@"; do
   out=$(./bin/check $P --tier $TIER 2>&1); rc=$?
   v=$(echo "$out" | grep -c '^VIOLATION')
   echo "$(basename $SD) $P rc=$rc violations=$v :: $(echo "$out" | grep -A1 '^VIOLATION' | grep -v '^VIOLATION' | grep -v '^--' | head -2 | cut -c1-200 | tr '\n' '|')"
 done
-cd /tmp/lab/repo && git checkout -q -- . && git clean -fdq
+cd $LAB/repo && git checkout -q -- . && git clean -fdq
